@@ -67,6 +67,8 @@ def gen_case(g):
             poly["coefs"][i] = G.nested_map(lambda v: v * factor, poly["coefs"][i])
         poly["scaled"] = True
     case = {"fn": fn, "poly": poly, "graded": rng.random() < 0.5, "reverse": rng.random() < 0.5}
+    if fn in ("lead", "sortable_proxy") and rng.random() < 0.3:
+        case["positional"] = True
     if fn == "set_dimensions":
         case["dimensions"] = rng.choice([None, 1, 2, 3, 4, 5])
         case["options"] = {"retain_names": rng.random() < 0.6, "retain_coefficients": rng.random() < 0.3}
@@ -101,8 +103,14 @@ def run_case(case, ctx):
     ctx.count(fn)
     try:
         if fn == "lead":
-            exp = numpoly.lead_exponent(poly, graded=graded, reverse=reverse)
-            coef = numpoly.lead_coefficient(poly, graded=graded, reverse=reverse)
+            if case.get("positional"):
+                # the documented parameter order is (poly, graded, reverse)
+                exp = numpoly.lead_exponent(poly, graded, reverse)
+                coef = numpoly.lead_coefficient(poly, graded, reverse)
+                ctx.count("positional_flags")
+            else:
+                exp = numpoly.lead_exponent(poly, graded=graded, reverse=reverse)
+                coef = numpoly.lead_coefficient(poly, graded=graded, reverse=reverse)
             exp = numpy.asarray(exp)
             if tuple(exp.shape) != tuple(pm.shape) + (len(names),):
                 ctx.violation(dict(facts, failure="shape"),
@@ -230,7 +238,8 @@ def run_case(case, ctx):
                 ctx.violation(dict(facts, failure="dtype"),
                               f"set_dimensions changed dtype {poly.dtype} -> {got.dtype}", case)
         elif fn == "sortable_proxy":
-            got = numpy.asarray(numpoly.sortable_proxy(poly, graded=graded, reverse=reverse))
+            got = numpy.asarray(numpoly.sortable_proxy(poly, graded, reverse) if case.get("positional")
+                                else numpoly.sortable_proxy(poly, graded=graded, reverse=reverse))
             if tuple(got.shape) != tuple(pm.shape):
                 ctx.violation(dict(facts, failure="shape"), f"proxy shape {got.shape} != {pm.shape}",
                               case)
